@@ -159,25 +159,47 @@ def splitTarget (t : Bytes) : Bytes × Bool × Bytes :=
 
 /-! ### HTTP/2 server stream: request `Wire` → `Inner` (mhttp2 `processRequest`, stream.go `handleFrame`) -/
 
-def joinCookies (h : HMap) : HMap :=
-  if (h.vals nCookie).length > 1 then h.setVals nCookie [joinWith semiSp (h.vals nCookie)] else h
+/-- a header map produced by something that is NOT "append every value" (an assignment, a map[string]string): only the last
+value of a name survives -/
+def convert (keepsAll : Bool) (h : HMap) : HMap :=
+  if keepsAll then h else h.map (fun e => (e.1, (e.2.getLast?.map (fun v => [v])).getD []))
 
-def decodeTrailers (passes : Bool) (t : Option (List Field)) : HMap :=
+/-- the loops of mhttp2.go that collect received fields into the http.Header maps, in the append-every-value form -/
+def reqKeepsAll : Bool := C01H2Map.reqCollect == ["rp.header.Add(sc.canonicalHeader(hf.Name),hf.Value)"]
+def respKeepsAll : Bool :=
+  C01H2Map.respCollect == ["key:=http.CanonicalHeaderKey(hf.Name);if:key == \"Trailer\";then:t:=res.Trailer;then:t=make(http.Header);then:res.Trailer=t;else:header[key]=append(header[key],hf.Value)"]
+def reqTrailerKeepsAll : Bool :=
+  C01H2Map.reqTrailerCollect == ["key:=sc.canonicalHeader(hf.Name);if:!httpguts.ValidTrailerHeader(key);st.trailer[key]=append(st.trailer[key],hf.Value)"]
+def respTrailerKeepsAll : Bool :=
+  C01H2Map.respTrailerCollect == ["key:=http.CanonicalHeaderKey(hf.Name);trailer[key]=append(trailer[key],hf.Value)"]
+
+def collectFields (keepsAll : Bool) (fs : List Field) : HMap := convert keepsAll (ofFields fs)
+
+/-- `processRequest`: several Cookie values are joined with the regenerated separator -/
+def joinCookies (h : HMap) : HMap :=
+  if (h.vals nCookie).length > 1 then h.setVals nCookie [joinWith C01H2Map.cookieSeparator (h.vals nCookie)] else h
+
+def decodeTrailers (passes keepsAll : Bool) (t : Option (List Field)) : HMap :=
   match t with
-  | some fs => if passes then ofFields fs else []
+  | some fs => if passes then collectFields keepsAll fs else []
   | none => []
 
-def srvDecode (w : Wire) : Inner :=
-  let h0 := ofFields w.fields
+/-- the request's header map as the proxy sees it: fields collected, cookie crumbs joined, the Trailer announcement deleted -/
+def srvHdr (w : Wire) : HMap :=
+  let h0 := collectFields reqKeepsAll w.fields
+  if C01H2Map.reqDeletesTrailerField then (joinCookies h0).del nTrailer else joinCookies h0
+
+def srvHost (w : Wire) : Bytes :=
   let auth := pseudoGet w.pseudo nAuthority
-  let host := if auth = [] then (h0.vals nHost).headD [] else auth
-  let hdr := (joinCookies h0).del nTrailer
+  if auth = [] then ((collectFields reqKeepsAll w.fields).vals nHost).headD [] else auth
+
+def srvDecode (w : Wire) : Inner :=
   if w.endOnHeaders && srvHeaderOnly then
-    { a := pseudoGet w.pseudo nMethod, b := host, c := pseudoGet w.pseudo nPath, hdr := hdr, data := none, trailers := none }
+    { a := pseudoGet w.pseudo nMethod, b := srvHost w, c := pseudoGet w.pseudo nPath, hdr := srvHdr w, data := none, trailers := none }
   else
-    { a := pseudoGet w.pseudo nMethod, b := host, c := pseudoGet w.pseudo nPath, hdr := hdr,
+    { a := pseudoGet w.pseudo nMethod, b := srvHost w, c := pseudoGet w.pseudo nPath, hdr := srvHdr w,
       data := if C01H2Map.serverEmptyBodyBuffer || w.body ≠ [] then some w.body else none,
-      trailers := some (decodeTrailers srvPassesTrailers w.trailers) }
+      trailers := some (decodeTrailers srvPassesTrailers reqTrailerKeepsAll w.trailers) }
 
 /-- the proxy variables after the HTTP/2 server stream stored them (`serverVarSets`) -/
 def srvVars (O : Oracles) (i : Inner) : String → Option Bytes := fun name =>
@@ -276,13 +298,13 @@ def fwdReqH2 (O : Oracles) (remote : Bytes) (win : List Nat) (w : Wire) : Wire :
 stream `Inner` → `Wire` (`serverStream.AppendHeaders`, `MStream.WriteHeader`, write.go `encodeHeaders`, `WriteTrailers`) -/
 
 def cliDecode (w : Wire) : Inner :=
-  let hdr := (ofFields w.fields).del nTrailer
+  let hdr := (collectFields respKeepsAll w.fields).del nTrailer
   if w.endOnHeaders && cliHeaderOnly then
     { a := pseudoGet w.pseudo nStatus, b := [], c := [], hdr := hdr, data := none, trailers := none }
   else
     { a := pseudoGet w.pseudo nStatus, b := [], c := [], hdr := hdr,
       data := if C01H2Map.clientEmptyBodyBuffer || w.body ≠ [] then some w.body else none,
-      trailers := some (decodeTrailers cliPassesTrailers w.trailers) }
+      trailers := some (decodeTrailers cliPassesTrailers respTrailerKeepsAll w.trailers) }
 
 def bodyAllowed (status : Nat) : Bool := !((100 ≤ status && status ≤ 199) || status == 204 || status == 304)
 
@@ -329,9 +351,6 @@ def dropEmptySpecial (h : HMap) : HMap := h.filter keepSpecial
 def transcoderKeepsAll (name : String) : Bool :=
   (C01H2Map.transcoders.find? (fun e => e.1 == name)).map (fun e => e.2.1) == some true
 
-/-- a converted header map: every value kept when the conversion copies with Add, else (a map[string]string) only the last -/
-def convert (keepsAll : Bool) (h : HMap) : HMap :=
-  if keepsAll then h else h.map (fun e => (e.1, (e.2.getLast?.map (fun v => [v])).getD []))
 
 /-- HTTP/1.1 downstream → HTTP/2 upstream, request.  fasthttp: the header map of the parsed request (cookies joined with
 "; ", the Host value also parsed into the URI host, lower-cased); the HTTP/1 server stream stores method / host / path
